@@ -277,4 +277,6 @@ def run(repo, tier):
         res.add(Finding('SPEC', vr.fullname, 'radii copy', vr.loc,
                         'ProfileBase._validate_radii may return the caller\'s `radii` array itself: the lazily evaluated radius, '
                         'apertures and photometry then follow later edits of that array', {}))
+    from .common import run_generic_pack
+    run_generic_pack(repo, res, PROP, ())
     return res
